@@ -837,6 +837,11 @@ func (f *Frame) applyContract0(in ssa.Instruction, ct *Contract, fn *ssa.Functio
 		return e
 	}
 	for _, r := range ct.Requires {
+		if hasTag(r.Tags, "assume") {
+			// a validity assumption on the inputs of the whole computation: used inside the callee, not demanded of callers
+			c.note("assumption: precondition of %s not demanded at its call sites: %s", key, r.Text)
+			continue
+		}
 		e := mk(st, nil)
 		c.oblige("requires", r.Tags, g, e.boolClause(r), where, "precondition of "+key+": "+r.Text)
 	}
